@@ -1,6 +1,230 @@
-//! C04 — not built yet (stub; replaced by the real check).
+//! C04 — blinding yields a transaction that verifies and that receivers can unblind.
+use elements::confidential::{Asset, AssetBlindingFactor, Nonce, Value, ValueBlindingFactor};
+use elements::secp256k1_zkp::{PublicKey, SecretKey};
+use elements::{Address, AddressParams, CtLocation, CtLocationType, Transaction, TxOut, TxOutSecrets};
+use rand::SeedableRng;
+use rand_chacha::ChaCha20Rng;
+use serde_json::json;
+use std::collections::BTreeMap;
+
 use crate::engine::*;
+use crate::gen::ct::{self, CtCase};
+use crate::gen::{pool, secp};
+use crate::refimpl::enc;
+use crate::{ensure, ensure_eq};
+
+pub type BlindMap = BTreeMap<CtLocation, (AssetBlindingFactor, ValueBlindingFactor, SecretKey)>;
+
+/// blind a generated case; returns the blinded transaction and the reported factors
+pub fn blind_case(case: &CtCase) -> Result<(Transaction, BlindMap), Failure> {
+    let mut tx = case.tx.clone();
+    let mut rng = ChaCha20Rng::from_seed(case.rng_seed);
+    let r = guard::guard("Transaction::blind", 0, || tx.blind(&mut rng, secp(), &case.secrets, false))?;
+    match r {
+        Ok(m) => Ok((tx, m)),
+        Err(e) => Err(Failure::new(format!(
+            "Transaction::blind failed on a balanced explicit transaction with true input secrets: {} ({:?})\n marked outputs={:?} of {}\n inputs={} assets={} issuance={}",
+            e,
+            e,
+            case.receivers.keys().collect::<Vec<_>>(),
+            case.tx.output.len(),
+            case.tx.input.len(),
+            case.n_assets,
+            case.has_issuance
+        ))),
+    }
+}
+
+pub fn describe(case: &CtCase) -> serde_json::Value {
+    json!({
+        "inputs": case.spent.iter().map(|s| if s.value.is_confidential() { "confidential" } else { "explicit" }).collect::<Vec<_>>(),
+        "issuances": case.tx.input.iter().filter(|i| i.has_issuance()).count(),
+        "assets": case.n_assets,
+        "outputs": case.tx.output.iter().enumerate().map(|(i, o)| json!({
+            "value": o.value.explicit(), "kind": if o.is_fee() { "fee" } else if case.receivers.contains_key(&i) { "to-blind" } else { "plain" }})).collect::<Vec<_>>(),
+    })
+}
+
+pub fn check_blinded(case: &CtCase, tx: &Transaction, map: &BlindMap, ctx: &mut Ctx) -> R {
+    // keys of the returned map == marked output positions
+    let keys: Vec<usize> = map.keys().map(|l| l.input_index).collect();
+    let want: Vec<usize> = case.receivers.keys().copied().collect();
+    ensure!(map.keys().all(|l| l.ty == CtLocationType::Input), "blind() reported issuance locations although issuances were not blinded");
+    ensure_eq!(keys, want, "positions reported by blind() differ from the outputs marked for blinding");
+    // verification against the spent outputs
+    let v = guard::guard("verify_tx_amt_proofs", 0, || tx.verify_tx_amt_proofs(secp(), &case.spent))?;
+    ctx.eval();
+    if let Err(e) = v {
+        return Err(Failure::new(format!("blinded transaction does not pass amount verification: {} ({:?})\n case={}", e, e, describe(case))));
+    }
+    ensure_eq!(tx.output.len(), case.tx.output.len(), "blind() changed the number of outputs");
+    ensure!(tx.input == case.tx.input && tx.version == case.tx.version && tx.lock_time == case.tx.lock_time, "blind() changed inputs / version / lock time");
+    for (i, out) in tx.output.iter().enumerate() {
+        let orig = &case.tx.output[i];
+        match case.receivers.get(&i) {
+            None => ensure!(out == orig, "output {} was not marked for blinding but was modified", i),
+            Some(sk) => {
+                let (abf, vbf, eph) = map
+                    .get(&CtLocation { input_index: i, ty: CtLocationType::Input })
+                    .ok_or_else(|| Failure::new(format!("no blinding factors reported for output {}", i)))?;
+                let (asset, value) = match (orig.asset.explicit(), orig.value.explicit()) {
+                    (Some(a), Some(v)) => (a, v),
+                    _ => return Err(Failure::new("generator error: non-explicit output".to_string())),
+                };
+                ensure!(out.asset.is_confidential() && out.value.is_confidential(), "marked output {} is not confidential after blinding", i);
+                ensure!(out.script_pubkey == orig.script_pubkey, "blinding changed the script of output {}", i);
+                ensure!(out.witness.rangeproof.is_some() && out.witness.surjection_proof.is_some(), "blinded output {} lacks a proof", i);
+                // unblind with the receiver key
+                let un = guard::guard("TxOut::unblind", 0, || out.unblind(secp(), *sk))?;
+                ctx.eval();
+                match un {
+                    Ok(s) => {
+                        ensure!(
+                            s.asset == asset && s.value == value && s.asset_bf == *abf && s.value_bf == *vbf,
+                            "output {} unblinds to {:?}, expected asset {} value {} with the reported factors ({}, {})",
+                            i, s, asset, value, abf, vbf
+                        );
+                    }
+                    Err(e) => return Err(Failure::new(format!("receiver cannot unblind output {}: {} ({:?})", i, e, e))),
+                }
+                // factors reproduce the commitments
+                let a2 = guard::guard("Asset::new_confidential", 0, || Asset::new_confidential(secp(), asset, *abf))?;
+                let v2 = guard::guard("Value::new_confidential_from_assetid", 0, || Value::new_confidential_from_assetid(secp(), value, asset, *vbf, *abf))?;
+                ensure!(a2 == out.asset, "reported asset blinding factor does not reproduce the asset commitment of output {}", i);
+                ensure!(v2 == out.value, "reported value blinding factor does not reproduce the value commitment of output {}", i);
+                // nonce is the ephemeral key
+                ensure!(out.nonce == Nonce::Confidential(PublicKey::from_secret_key(secp(), eph)), "nonce of output {} is not the public key of the reported ephemeral key", i);
+                // another key does not return these secrets
+                let other = pool().seckeys.iter().find(|k| *k != sk).copied();
+                if let Some(ok) = other {
+                    let un2 = guard::guard("TxOut::unblind", 0, || out.unblind(secp(), ok))?;
+                    if let Ok(s2) = un2 {
+                        ensure!(!(s2.asset == asset && s2.value == value && s2.value_bf == *vbf), "output {} unblinds with a key that is not the receiver's", i);
+                    }
+                }
+            }
+        }
+    }
+    Ok(())
+}
+
+fn blind_and_check(t: &mut Tape, ctx: &mut Ctx) -> R {
+    let case = ct::gen_ct_case(t, false);
+    let (tx, map) = blind_case(&case)?;
+    check_blinded(&case, &tx, &map, ctx)?;
+    // C01 on values produced by the blinding functions: encodes / decodes back, reference bytes
+    let want = enc::tx_full(&tx);
+    super::c01::roundtrip_value("Transaction", &tx, Some(&want), &[], ctx)?;
+    let marked: Vec<usize> = case.receivers.keys().copied().collect();
+    let last_marked_not_last = marked.last().map_or(false, |m| *m + 1 != case.tx.output.len());
+    ctx.class(&format!("marked:{}", marked.len().min(4)));
+    ctx.class(&format!("assets:{}", case.n_assets.min(4)));
+    if case.has_issuance {
+        ctx.class("with-issuance");
+    }
+    if case.has_conf_input {
+        ctx.class("with-confidential-input");
+    }
+    if last_marked_not_last {
+        ctx.class("last-marked-is-not-last-output");
+    }
+    if marked.len() >= 2 || case.n_assets >= 2 || case.has_issuance || case.has_conf_input || last_marked_not_last {
+        ctx.nontrivial(&enc::tx_full(&case.tx));
+    }
+    let cls = format!("case:marked{}{}{}", marked.len().min(3), if case.has_issuance { "+issuance" } else { "" }, if case.has_conf_input { "+conf-in" } else { "" });
+    if ctx.wants_sample(&cls) {
+        ctx.sample(&cls, || describe(&case));
+    }
+    Ok(())
+}
+
+/// the building blocks directly
+fn building_blocks(t: &mut Tape, ctx: &mut Ctx) -> R {
+    let p = pool();
+    let case = ct::gen_ct_case(t, true);
+    let mut rng = ChaCha20Rng::from_seed(case.rng_seed);
+    let rk = t.below(p.seckeys.len());
+    let receiver_sk = p.seckeys[rk];
+    let receiver_pk = PublicKey::from_secret_key(secp(), &receiver_sk);
+    // an output of an asset that some input carries
+    let sec = case.secrets[t.below(case.secrets.len())];
+    let value = ct::gen_amount(t);
+    let spk = ct::std_script(t);
+    let addr = match Address::from_script(&spk, Some(receiver_pk), &AddressParams::ELEMENTS) {
+        Some(a) => a,
+        None => return Err(Failure::new("Address::from_script failed on a standard script".to_string())),
+    };
+    let which = t.below(3);
+    let (out, abf, vbf): (TxOut, AssetBlindingFactor, ValueBlindingFactor) = match which {
+        0 => {
+            let r = guard::guard("new_not_last_confidential", 0, || TxOut::new_not_last_confidential(&mut rng, secp(), value, &addr, sec.asset, &case.secrets))?;
+            match r {
+                Ok((o, a, v, _)) => (o, a, v),
+                Err(e) => return Err(Failure::new(format!("new_not_last_confidential failed: {}", e))),
+            }
+        }
+        1 => {
+            let abf = ct::abf_from(t, 1000);
+            let vbf = ct::vbf_from(t, 1000);
+            let eph = p.seckeys[t.below(p.seckeys.len())];
+            let os = TxOutSecrets::new(sec.asset, abf, value, vbf);
+            let r = guard::guard("with_txout_secrets", 0, || TxOut::with_txout_secrets(&mut rng, secp(), spk.clone(), receiver_pk, eph, os, &case.secrets))?;
+            match r {
+                Ok(o) => {
+                    ensure!(o.nonce == Nonce::Confidential(PublicKey::from_secret_key(secp(), &eph)), "with_txout_secrets: nonce is not the ephemeral public key");
+                    (o, abf, vbf)
+                }
+                Err(e) => return Err(Failure::new(format!("with_txout_secrets failed: {}", e))),
+            }
+        }
+        _ => {
+            let outs: Vec<TxOutSecrets> = Vec::new();
+            let refs: Vec<&TxOutSecrets> = outs.iter().collect();
+            let r = guard::guard("new_last_confidential", 0, || {
+                TxOut::new_last_confidential(&mut rng, secp(), value, sec.asset, spk.clone(), receiver_pk, &case.secrets, &refs)
+            })?;
+            match r {
+                Ok((o, a, v, _)) => (o, a, v),
+                Err(e) => return Err(Failure::new(format!("new_last_confidential failed: {}", e))),
+            }
+        }
+    };
+    ctx.eval();
+    let un = guard::guard("TxOut::unblind", 0, || out.unblind(secp(), receiver_sk))?;
+    match un {
+        Ok(s) => ensure!(s == TxOutSecrets::new(sec.asset, abf, value, vbf), "constructor {} output unblinds to {:?}", which, s),
+        Err(e) => return Err(Failure::new(format!("constructor {} output cannot be unblinded: {}", which, e))),
+    }
+    ensure!(Asset::new_confidential(secp(), sec.asset, abf) == out.asset, "asset commitment is not new_confidential(asset, abf)");
+    ensure!(Value::new_confidential_from_assetid(secp(), value, sec.asset, vbf, abf) == out.value, "value commitment is not new_confidential_from_assetid(value, asset, vbf, abf)");
+    ensure!(out.script_pubkey == spk, "script changed");
+    super::c01::roundtrip_value("TxOut(blinded)", &TxOut { witness: Default::default(), ..out.clone() }, None, &[], ctx)?;
+    ctx.class(&format!("constructor:{}", ["new_not_last_confidential", "with_txout_secrets", "new_last_confidential"][which]));
+    ctx.nontrivial(&(which, value, hex(&case.rng_seed)));
+    Ok(())
+}
 
 pub fn property() -> Property {
-    Property { id: "C04", rule: "", assumptions: &[], subs: vec![], known: vec![] }
+    Property {
+        id: "C04",
+        rule: "blind: tape-generated balanced explicit transactions: 1..4 inputs over 1..3 assets, each spent output explicit \
+               or confidential (real commitments from tape-chosen blinding factors), optional explicit issuance (+token) / \
+               reissuance pseudo-inputs, per-asset totals split into 1..3 positive outputs (values 1..2^60 edge-biased), fee / \
+               plain / to-blind outputs in tape order, >=1 marked with a receiver key, blinder RNG = ChaCha20(tape seed). \
+               Oracle: blind() Ok; reported positions == marked positions; verify_tx_amt_proofs Ok; each marked output unblinds \
+               with the receiver key to (asset, value, reported abf, vbf); factors reproduce both commitments; nonce == \
+               pubkey(reported ephemeral key); unmarked outputs untouched; another key does not unblind; the result \
+               round-trips through consensus encoding (C01). building_blocks: the three TxOut constructors directly. \
+               Non-trivial: >=2 marked outputs, >=2 assets, an issuance, a confidential input, or last marked output not \
+               last; distinct by the explicit transaction's encoding.",
+        assumptions: &[
+            "secp256k1-zkp (Pedersen commitments, range / surjection proofs, rewind) is the trusted base",
+            "input secrets are passed in the order amount verification builds its surjection domain: input, its issuance, its token, next input",
+        ],
+        subs: vec![
+            Sub { name: "blind", kind: Kind::Tape { max_len: 2500, quick: 3_000, thorough: 120_000, f: blind_and_check } },
+            Sub { name: "building_blocks", kind: Kind::Tape { max_len: 2500, quick: 1_500, thorough: 40_000, f: building_blocks } },
+        ],
+        known: vec![],
+    }
 }
